@@ -705,8 +705,17 @@ def eval_C16(doc):
     d1 = clone(doc)
     t = d1.pop("transform")
     d2, ren = transform_C16(doc)
-    a = run_session(d1)
-    b = run_session(d2)
+    # pruning decisions made on the last bits of a float are looked for right after every operation
+    # (a later widening removes the evidence from the lattice)
+    near = {"a": False, "b": False}
+
+    def watch(which):
+        def on_op(sess_, out_):
+            if sess_.matcher is not None and near_tie_at_pruning_boundary(sess_.matcher):
+                near[which] = True
+        return on_op
+    a = run_session(d1, on_op=watch("a"))
+    b = run_session(d2, on_op=watch("b"))
     kind = t["kind"]
     # scale: the repository's absolute 1e-8 tolerances are the only scale-dependent quantities
     rel = 1e-9
@@ -724,7 +733,7 @@ def eval_C16(doc):
         if c.startswith("diff"):
             if c != "diff:idx" and tie_upstream(doc["cfg"], a, b):
                 stats["inconclusive_tie_upstream"] = 1
-            elif kind in ("scale", "swap") and (near_tie_at_pruning_boundary(a.matcher) or near_tie_at_pruning_boundary(b.matcher)):
+            elif kind in ("scale", "swap") and (near["a"] or near["b"]):
                 # listed finding: the transformation changes last bits of a probability and width pruning
                 # (exact ties only) turns that into another candidate set
                 vs.append(oa.V("C16/%s/near-tie-at-pruning-boundary" % kind, "%s: %r vs %r" % (
@@ -772,7 +781,8 @@ def eval_C19(doc):
 # ----------------------------------------------------------------------------- C15
 def gen_C15(rng, tier):
     fam = rng.choice(["simple", "distance"])
-    cfg_kw = {"family": fam, "ne": False, "width": False, "second_order": False, "cutoffs": False}
+    # "same parameters" includes the default avoid_goingback=True: 40 % of the twins are second order
+    cfg_kw = {"family": fam, "ne": False, "width": False, "second_order": rng.random() < 0.4, "cutoffs": False}
     if fam == "simple":
         cfg_kw["only_edges"] = rng.random() < 0.7
     world = gen.gen_world(rng, unit=rng.choice([10.0, 15.0, 20.0]), n=rng.randint(3, 7),
@@ -818,6 +828,24 @@ def eval_C15(doc):
             for p in d1["trace"]:
                 u = ((p[0] - pa[0]) * (pb[0] - pa[0]) + (p[1] - pa[1]) * (pb[1] - pa[1])) / l2
                 if min(abs(u), abs(u - 1.0)) * math.sqrt(l2) < 0.5:
+                    return result(vs, doc, a, stats={"fragile": 1})
+    if d1["cfg"].get("avoid_goingback", True):
+        # the going-back-on-edge penalty compares the relative positions of two consecutive observations
+        # on the same edge; the geodesic projection is accurate to ~0.2 m along the edge, so two
+        # projections closer than half a metre (and not both clamped to the same end) are a threshold
+        # decision (fragility guard)
+        st = RefStore.from_world(d1["world"])
+        for ea_, eb_ in st.edges():
+            pa, pb = st.loc[ea_], st.loc[eb_]
+            l2 = (pa[0] - pb[0]) ** 2 + (pa[1] - pb[1]) ** 2
+            if l2 == 0:
+                continue
+            us = [((p[0] - pa[0]) * (pb[0] - pa[0]) + (p[1] - pa[1]) * (pb[1] - pa[1])) / l2 for p in d1["trace"]]
+            for u1, u2 in zip(us, us[1:]):
+                c1, c2 = min(1.0, max(0.0, u1)), min(1.0, max(0.0, u2))
+                both_clamped = (u1 <= 0 and u2 <= 0) or (u1 >= 1 and u2 >= 1)
+                near_end = any(abs(u) * math.sqrt(l2) < 0.5 or abs(u - 1) * math.sqrt(l2) < 0.5 for u in (u1, u2))
+                if (not both_clamped and abs(c1 - c2) * math.sqrt(l2) < 0.5) or (near_end and not both_clamped):
                     return result(vs, doc, a, stats={"fragile": 1})
     if ob.exc is not None and oa_.exc is None:
         vs.append(oa.V("C15/latlon-raises/%s" % type(ob.exc).__name__, "%s" % (ob.exc,), ob))
